@@ -50,6 +50,9 @@ type hbProxy struct {
 	// sniffers are called with every chunk that is about to be forwarded (dir, data); they may
 	// engage the fault (the chunk that triggered it is still forwarded unless `swallow` is returned).
 	sniff func(dir int, data []byte) (swallow bool)
+	// connSniff: like sniff but per proxied connection; may modify data in place (same length),
+	// stall the connection's client->server direction from now on, or cut the connection.
+	connSniff func(pc *hbPConn, dir int, data []byte) (swallow bool)
 
 	mu     sync.Mutex
 	conns  []net.Conn
@@ -96,6 +99,21 @@ func (p *hbProxy) acceptLoop() {
 	}
 }
 
+// hbPConn: one proxied connection (client side c, upstream side u).
+type hbPConn struct {
+	c, u     net.Conn
+	isWS     atomic.Bool
+	stallC2S atomic.Bool
+}
+
+func (pc *hbPConn) cut() {
+	go func() {
+		time.Sleep(20 * time.Millisecond) // let the chunk that triggered the cut go out first
+		pc.c.Close()
+		pc.u.Close()
+	}()
+}
+
 type hbChunk struct {
 	data []byte
 	at   time.Time
@@ -110,11 +128,12 @@ func (p *hbProxy) serve(c net.Conn) {
 		return
 	}
 	p.track(u)
-	go p.pump(0, c, u)
-	go p.pump(1, u, c)
+	pc := &hbPConn{c: c, u: u}
+	go p.pump(pc, 0, c, u)
+	go p.pump(pc, 1, u, c)
 }
 
-func (p *hbProxy) pump(dir int, src, dst net.Conn) {
+func (p *hbProxy) pump(pc *hbPConn, dir int, src, dst net.Conn) {
 	q := make(chan hbChunk, 1024)
 	go func() { // writer: releases chunks in order, not before their release time
 		for ch := range q {
@@ -142,6 +161,12 @@ func (p *hbProxy) pump(dir int, src, dst net.Conn) {
 			swallow := false
 			if p.sniff != nil && p.mode[dir].Load() == hbFwd {
 				swallow = p.sniff(dir, data)
+			}
+			if dir == 0 && pc.stallC2S.Load() {
+				swallow = true
+			}
+			if p.connSniff != nil && !swallow {
+				swallow = p.connSniff(pc, dir, data)
 			}
 			if !swallow && p.mode[dir].Load() == hbFwd {
 				q <- hbChunk{data: data, at: time.Now().Add(time.Duration(p.delay[dir].Load()) * time.Millisecond)}
@@ -389,6 +414,41 @@ func runHbScenario1(sc hbScenario) hbRow {
 			return false
 		}
 	}
+	if strings.HasPrefix(sc.When, "upfail-") {
+		// a polling->websocket upgrade whose websocket handshake succeeds but whose probe fails:
+		//   upfail-stall     : nothing the client sends on the websocket reaches the server (probe unanswered)
+		//   upfail-wrongpong : the server's probe pong arrives with wrong data
+		//   upfail-cut       : the websocket connection is cut right after the handshake
+		// long-polling is untouched: the connection must live on there, heartbeat included.
+		proxy.connSniff = func(pc *hbPConn, dir int, data []byte) bool {
+			if dir == 0 && bytes.Contains(data, []byte("transport=websocket")) {
+				pc.isWS.Store(true)
+				return false
+			}
+			if !pc.isWS.Load() || dir != 1 {
+				return false
+			}
+			if bytes.Contains(data, []byte("101 Switching")) {
+				t := r.now()
+				r.mu.Lock()
+				r.row.Cut = t
+				r.mu.Unlock()
+				switch sc.When {
+				case "upfail-stall":
+					pc.stallC2S.Store(true)
+				case "upfail-cut":
+					pc.stallC2S.Store(true) // the probe must not get through before the cut
+					pc.cut()
+				}
+			}
+			if sc.When == "upfail-wrongpong" {
+				if i := bytes.Index(data, []byte("probe")); i >= 0 {
+					data[i+4] = '0'
+				}
+			}
+			return false
+		}
+	}
 	if sc.Fault == "jitter" {
 		// uplink (client->server) slow from the start; downlink becomes slow after the K-th ping
 		proxy.delay[0].Store(sc.T * 8 / 10)
@@ -457,8 +517,13 @@ func runHbScenario1(sc hbScenario) hbRow {
 			r.mu.Unlock()
 		},
 	}
+	var upgradeTimeout time.Duration
+	if strings.HasPrefix(sc.When, "upfail-") {
+		upgradeTimeout = 500 * time.Millisecond
+	}
 	cli, err := eio.Dial(url, cb, &eio.ClientConfig{
-		Transports: transports,
+		Transports:     transports,
+		UpgradeTimeout: upgradeTimeout,
 		UpgradeDone: func(name string) {
 			t := r.now()
 			r.mu.Lock()
@@ -822,6 +887,10 @@ func hbScenarios(tier string, seed uint64, only string) []hbScenario {
 		add("upgrade", I, T, "none", "-", 0, -1, "")
 		add("websocket", I, T, "none", "-", 0, int64(rnd.Intn(int(I))), "")
 		add("polling", I, T, "none", "-", 0, int64(rnd.Intn(int(I))), "")
+		// live peers whose upgrade FAILS after the websocket handshake: the connection lives on on long-polling
+		add("upgrade", I, T, "none", "upfail-stall", 0, -1, "")
+		add("upgrade", I, T, "none", "upfail-wrongpong", 0, -1, "")
+		add("upgrade", I, T, "none", "upfail-cut", 0, int64(rnd.Intn(int(I))), "")
 		// live peer whose upgrade completes around a ping (swept across the ping instant)
 		for _, off := range []int64{-200, -30, 30, 200, 600} {
 			addSwap(I, T, "swap-nopoll", off+int64(rnd.Intn(20))-10)
@@ -868,6 +937,9 @@ func hbScenarios(tier string, seed uint64, only string) []hbScenario {
 				add("upgrade", i, t, "none", "-", 0, int64(rnd.Intn(int(i))), "")
 				for _, frac := range []int64{-20, -3, 3, 20, 45, 70} {
 					addSwap(i, t, "swap-nopoll", t*frac/100+int64(rnd.Intn(20))-10)
+				}
+				for _, w := range []string{"upfail-stall", "upfail-wrongpong", "upfail-cut"} {
+					add("upgrade", i, t, "none", w, 0, -1, "")
 				}
 				addSwap(i, t, "swap-poll", -i*3/10)
 				addSwap(i, t, "swap-poll", t*3/10)
